@@ -900,10 +900,22 @@ package state
 //@ trusted
 //@ results err
 //@ modifies T.index
+// updateMeshTopology, VERIFIED for the same rule: a stored row is deep-copied before the registering proxy's
+// reference is added; nothing but the mesh-topology and index tables is written.
 //@ func updateMeshTopology
-//@ trusted
+//@ props C07 C05
 //@ results err
+//@ requires svc != nil
+//@ ensures[stored-rows-never-changed-in-place] topologyRowsImmutable() && refMapsImmutable()
+//@ ensures[replacements-are-fresh-copies] forall k string :: T_mesh_topology(k) == old(T_mesh_topology(k)) || T_mesh_topology(k) == nil || fresh(T_mesh_topology(k))
 //@ modifies T.index, T.mesh-topology
+//@ loop 1 invariant[stored-rows-never-changed-in-place] topologyRowsImmutable() && refMapsImmutable()
+//@ loop 1 invariant[scratch-maps-are-fresh] fresh(oldUpstreams)
+//@ loop 2 invariant[stored-rows-never-changed-in-place] topologyRowsImmutable() && refMapsImmutable()
+//@ loop 2 invariant[replacements-are-fresh-copies] forall k string :: T_mesh_topology(k) == old(T_mesh_topology(k)) || T_mesh_topology(k) == nil || fresh(T_mesh_topology(k))
+//@ loop 2 invariant[scratch-maps-are-fresh] fresh(oldUpstreams) && fresh(inserted)
+//@ loop 3 invariant[stored-rows-never-changed-in-place] topologyRowsImmutable() && refMapsImmutable()
+//@ loop 3 invariant[replacements-are-fresh-copies] forall k string :: T_mesh_topology(k) == old(T_mesh_topology(k)) || T_mesh_topology(k) == nil || fresh(T_mesh_topology(k))
 //@ func assignServiceVirtualIP
 //@ trusted
 //@ opt record assignServiceVirtualIP
